@@ -257,6 +257,12 @@ def tokText (src : List Nat) (t : Spanned) : List Nat := (src.drop t.cs).take (t
 /-- gap predicate of the full lexer, as a `Prop` -/
 def GF (t : List Nat) : Prop := gapFull t = true
 
+/-- gap predicate of the default lexer: accepted by the gap scanner from either scanner state
+    (a gap may begin while the scanner is still inside a comment that a previous gap opened — it
+    never does in a real stream, where a comment is followed by a line break — so acceptance from both
+    states is the composable form) -/
+def GP (t : List Nat) : Prop := ∀ s, gapPlain s t = true
+
 /-- the tokens tile the source (behind a byte-order mark, if any): the text in front of the first
     token, between consecutive tokens, and after the last token satisfies `G` -/
 def Tiles (G : List Nat → Prop) (src : List Nat) (toks : List Spanned) : Prop :=
